@@ -36,7 +36,10 @@ def obligations(prop, entries, tier, call, gens=("generic", "generated"), offmax
             src = TEMPLATE % dict(prelude=S.PRELUDE, key=key, classes=classes, cname=decl.name, extra=extra_src)
             src = src.replace("KEY", repr(key))
             fns = []
-            ts = lengths if lengths is not None else range(min_len, lmax + offmax + 1)
+            ts = lengths if lengths is not None else list(range(min_len, lmax + offmax + 1))
+            if lengths is None and tier == "quick" and lmax > 12:
+                # long flat declarations: every third length plus the complete / one-short / one-long inputs
+                ts = sorted(set(list(range(min_len, lmax, 3)) + [lmax - 1, lmax, lmax + 1]))
             for T in ts:
                 tag = "T%d" % T
                 src += FN % dict(tag=tag, T=T, offlo=offmin, offhi=min(offmax, T) if offmin == 0 else offmax,
